@@ -9,9 +9,72 @@ claim('C01',
       'kernel), z3; floats modelled as reals; Numba-compiled kernel only exercised on replayed witnesses.',
       'DESIGN.md section 5, C01')
 
+_TB = ('Trusted: the symx engine and NumPy shim (validated on every run by replaying sampled path witnesses on the real '
+       'build under /venv/bin/python), z3; python floats modelled as exact reals unless stated; every stub listed in '
+       'evidence.coverage.stubs is part of the claim. ')
+
+claim('C04',
+      'The real front ends, stacking/padding/splitting helpers, fit_stacked_data and the real MRF reconstruction run '
+      'symbolically for every window size, sensor count, cluster count, iteration limit and (independent) series '
+      'length in the bounds, with the numerical phases replaced by recording summaries that return arbitrary labels / '
+      'values; on every path z3 discharges: one label per row, margins exactly floor((W-1)/2) / rest, interior labels '
+      'are the labelling step\'s labels in order with no leakage across series, K MRFs of NW x NW, K and W echoed.',
+      _TB + 'Numerical phases are summarised (their own properties cover them).', 'DESIGN.md section 5, C04')
+claim('C05',
+      'The real likelihood kernels (point density, all-points table, public table function, per-point wrapper) run on '
+      'symbolic points, means, symmetric MRFs and log-determinant symbols; z3 (nlsat) proves the polynomial identity '
+      'with an independently written Gaussian log-density, entry by entry, and that the public function scores against '
+      'the current MRF/mean/ln-det (stale caches planted). A det() contract stub carries the double-range side '
+      'condition for Theta=t*I_n, n up to 200, which is how log(det()) vs slogdet() is told apart.',
+      _TB + 'ln is an Ackermannised uninterpreted function; LAPACK accuracy is outside.', 'DESIGN.md section 5, C05')
+claim('C06',
+      'The real relabel step, kernels, fit_stacked_data tail and _split_combined_result run on arbitrary symbolic '
+      'positive-definite MRFs / ln-det symbols / switching costs (data and means fixed distinct patterns so all '
+      'obligations are linear); on every path (every labelling the real kernel can produce, including ones leaving a '
+      'cluster empty) z3 discharges the accounting relations between all_log_likelihood, overall sum/mean/median, '
+      'cluster mean/median and label_assignment_cost, for scalar and per-pair beta, iteration limit 1 and 2, single '
+      'and joint front end.',
+      _TB + 'Fitting phases summarised; known finding C06-joint-cost-prices-boundary-pairs (same root cause as C07).',
+      'DESIGN.md section 5, C06')
+claim('C08',
+      'One inductive step of the real repopulate_empty_clusters from an arbitrary labelling: labels (or size vectors), '
+      'minimum size m, per-cluster spread and the random draw are symbolic; every feasible path is explored and the '
+      'conservation / donor / recipient / spread-order / untouched-input obligations are discharged per path. One step '
+      'from an arbitrary state covers histories of any length.',
+      _TB + 'norm and random.sample are contract stubs (any spread, any distinct draw).', 'DESIGN.md section 5, C08')
+claim('C10',
+      'The real stacking helpers run on opaque 64-bit payloads (BITS: bit-for-bit copy semantics, so NaN payloads, '
+      'infinities and -0 are covered by construction) for every W, N, T and tuple of series lengths in the bounds; '
+      'split+pad run on symbolic labels and symbolic stacked lengths.', _TB, 'DESIGN.md section 5, C10')
+claim('C11',
+      'Closed-form compressed index proved equal to the row-major rank by induction (base/step are unsat queries) with '
+      'no bound on n other than the float-exactness side condition; compression round trips on symbolic matrices up to '
+      'n=150 (thorough); Toeplitz class maps for every (N,W) in the bounds with the class id symbolic: partition, '
+      'class size W-b, block-Toeplitz equality, compressed/slice forms agree, cache transparent.',
+      _TB, 'DESIGN.md section 5, C11')
+claim('C12',
+      'The real statistics step runs on symbolic data, symbolic labels and a symbolic estimator flag and is compared '
+      '(nlsat) with an independently written sample mean / covariance over exactly the labelled windows; the real '
+      'optimiser plumbing runs on a stub pool whose completion order is chosen by the solver, with matrix- and '
+      'scalar-valued sparsity weight and a symbolic covariance floor.', _TB, 'DESIGN.md section 5, C12')
+claim('C13',
+      'One-step and two-step inductive obligations from an arbitrary state satisfying the representation invariant, '
+      'for every state operation (assign, repopulate, statistics, optimise, relabel, shallow/deep copy); deep copies '
+      'are checked by walking the reachable object graphs and by mutating every leaf of the copy.',
+      _TB + 'The solver\'s role is the exhaustive exploration of labellings and branch outcomes; identity checks are '
+      'concrete per path.', 'DESIGN.md section 5, C13')
+claim('C16',
+      'The real BIC function on symbolic positive-definite MRFs, covariances and labels is proved equal (nlsat) to the '
+      'definition with independently derived label runs and a symbolic over-threshold count; the det() range side '
+      'condition is checked for Theta=t*I_n, n up to 200.', _TB, 'DESIGN.md section 5, C16')
+claim('C17',
+      'The real Calinski-Harabasz function on symbolic data and labels (cluster means from the real statistics step) '
+      'is compared with the definition as a cross-multiplied rational identity (nlsat); where it fails, the deviation '
+      'model of the listed known finding (scalar global mean) is proved instead, so that every other part of the '
+      'formula stays under check.', _TB + 'Known finding C17-scalar-centre.', 'DESIGN.md section 5, C17')
+
 _PENDING = 'check not built yet in this round (design in DESIGN.md section 5); will be claimed when its harness lands'
-for _p in ['C02', 'C03', 'C04', 'C05', 'C06', 'C07', 'C08', 'C09', 'C10', 'C11', 'C12', 'C13', 'C14', 'C16',
-           'C17', 'C18', 'C19', 'C20']:
+for _p in ['C02', 'C03', 'C07', 'C09', 'C14', 'C18', 'C19', 'C20']:
     na(_p, _PENDING)
 na('C15', 'compares Numba-generated machine code (LLVM/NRT/BLAS calls, prange threads) with the interpreted source; '
           'no engine in this sandbox executes that symbolically and a hand IR->SMT translator for allocating, '
